@@ -40,6 +40,14 @@ DOMAINS = [
     dict(name="term-zones", tu="bwddoms2", what="term_domain over split_dbm_domain", rel=True),
     dict(name="disitv", tu="bwddoms3", what="dis_interval_domain"),
     dict(name="bool-itv", tu="bwddoms3", what="flat_boolean_numerical_domain<interval_domain>", bools=True),
+    # backward operations are stubs (known finding): only the recorded inputs, so that the finding is reported on every run
+    dict(name="pow-itv", tu="bwddoms3", what="powerset_domain<interval_domain> (backward operations are stubs)", corpus=True),
+]
+# inputs of the recorded finding "domains whose backward_assign / backward_apply are stubs" (known_findings.json)
+STUB_CORPUS = [
+    "cfg 2 3 1 mode=good fwd=1 nasserts=0 | B 0 arith sub 2 2 k 1 | B 1  | E 0 1 | G C le E 1 1 2 10",
+    "cfg 2 3 1 mode=good fwd=0 nasserts=0 | B 0 arith add 2 2 k 3 | B 1  | E 0 1 | G C le E 1 -1 2 5",
+    "cfg 2 2 1 mode=error fwd=0 nasserts=1 | B 0 assign 0 E 1 1 0 -4 ; assert C le E 1 1 0 0 1 | B 1  | E 0 1",
 ]
 EXCLUDED = {
     "interval_domain": "covered by the model-backed streams bwd-intervals* of C11",
@@ -434,6 +442,8 @@ def run_domain(tier, seed, dom, exe, known, n=None, lines=None, do_shrink=True):
     st = res.st
     outd = os.path.join(vlib.VERIF, "out", PROP)
     replaying = lines is not None
+    if lines is None and dom.get("corpus"):
+        lines = list(STUB_CORPUS)
     lines = lines if lines is not None else programs(seed, tier, name, n, bools=dom.get("bools", False), rel=dom.get("rel", False))
     cases = os.path.join(outd, stream + (".replay" if replaying else "") + ".cases")
     t0 = time.time()
